@@ -71,6 +71,17 @@ pub fn emit_case(krate: &mut Crate, case: &Case, rep: &mut Rep) {
         noise.truncate(14);
         case.inputs.extend(noise);
     }
+    // a quarter of the cases with skip_ws(false): whitespace is significant, also at the very end (STOP)
+    let no_skip = crate::ag::fnv(&case.text) % 4 == 1 && !case.text.contains("Layout");
+    if no_skip {
+        let tight: Vec<String> = case.inputs.iter().take(16).map(|i| i.split_whitespace().collect::<String>()).filter(|i| !i.is_empty()).collect();
+        for t in tight {
+            case.inputs.push(format!("{} ", t));
+            case.inputs.push(format!("{}\n", t));
+            case.inputs.push(t);
+        }
+        rep.count("cases_without_whitespace_skipping", 1);
+    }
     let case = &case;
     for glr in [false, true] {
         for gen_table in [0u8, 1] {
@@ -84,7 +95,7 @@ pub fn emit_case(krate: &mut Crate, case: &Case, rep: &mut Rep) {
                 1 => Some(if glr { 0u8 } else { 2u8 }),
                 _ => Some(if glr { 2u8 } else { 0u8 }),
             };
-            let spec = SetSpec { glr, gen_table, table, ps: if glr { None } else { Some(true) }, ms: case.lex.0, lm: case.lex.1, fancy: case.fancy, ..Default::default() };
+            let spec = SetSpec { glr, gen_table, table, ps: if glr { None } else { Some(true) }, ms: case.lex.0, lm: case.lex.1, fancy: case.fancy, skip_ws: !no_skip, ..Default::default() };
             let c = generate_into(&krate.src(), &m, &case.text, &spec);
             let (Outcome::Ok, Some(d)) = (&c.outcome, &c.dump) else {
                 rep.count("not_generated", 1);
